@@ -59,6 +59,21 @@ def run(ctx):
             ctx.violation("write-after-failover/" + kind, "a write after the failover was not served by the new master", r)
         else:
             ctx.cov["traces_validated_against_impl"] += 1
+    # concurrent readers/writers on several connections while the slot is half migrated, then finalised
+    sfile = os.path.join(ctx.work, "migstress.ndjson")
+    ctx.harness(["cluster-migstress", "-out", sfile, "-runs", "20" if ctx.thorough else "3", "-ms", "500" if ctx.thorough else "300"],
+                timeout=900, name="cluster")
+    for r in kit.read_ndjson(sfile):
+        if r.get("err"):
+            ctx.notes.append("migstress: " + r["err"])
+            continue
+        ctx.case(key=["migstress", r["run"], r["requests"]], nontrivial=True, n=r["requests"])
+        for b in (r.get("bad") or [])[:3]:
+            ctx.violation("reply-differs/concurrent-migration", b, r)
+        for c in r.get("copies") or []:
+            ctx.violation("key-copies/concurrent-migration", c, r)
+        if not r.get("bad") and not r.get("copies"):
+            ctx.cov["traces_validated_against_impl"] += 1
     afile = os.path.join(ctx.work, "askrace.ndjson")
     ctx.harness(["cluster-askrace", "-out", afile, "-runs", "6" if ctx.thorough else "2"], timeout=600, name="cluster")
     for r in kit.read_ndjson(afile):
